@@ -4,6 +4,7 @@ import (
 	"crypto/sha256"
 	"encoding/hex"
 	"encoding/json"
+	"errors"
 	"fmt"
 	"strings"
 	"sync"
@@ -29,6 +30,7 @@ type opDesc struct {
 	Data   []int   `json:"data"`   // ExtInsert: GenericExtension.Data
 	T      int     `json:"t"`      // ExtRemove: extension type
 	Protos [][]int `json:"protos"` // ExtALPN
+	What   string  `json:"what"`   // Break: pad2 | extfail | badbinder | emptypsk | shortrandom
 }
 
 type scn struct {
@@ -37,6 +39,7 @@ type scn struct {
 	Server     string   `json:"server"`     // plain | hrr | hrrcookie
 	Cookie     []int    `json:"cookie"`     // HRR cookie bytes (server hrrcookie)
 	SkipVerify bool     `json:"skipverify"` // Config.InsecureSkipVerify (scenarios with names no certificate carries, or no name at all)
+	StrictPsk  bool     `json:"strictpsk"`  // Config.OmitEmptyPsk stays false
 	Sess       bool     `json:"sess"`       // a TLS 1.3 session of an earlier connection to the same server is in the client's cache
 	Ops        []opDesc `json:"ops"`
 }
@@ -173,6 +176,13 @@ func extHasType(e tls.TLSExtension, t int) bool {
 	return false
 }
 
+// failingExt is an extension whose serialisation fails (everything else is a GenericExtension's).
+type failingExt struct{ *tls.GenericExtension }
+
+func (failingExt) Read(b []byte) (int, error) {
+	return 0, errors.New("verif extension: refuses to be serialised")
+}
+
 // applyOp performs one public call / documented edit and returns what it observed.
 func applyOp(u *tls.UConn, o *opDesc, specFn func() (*tls.ClientHelloSpec, error)) (obs map[string]any, err error) {
 	obs = map[string]any{}
@@ -208,6 +218,25 @@ func applyOp(u *tls.UConn, o *opDesc, specFn func() (*tls.ClientHelloSpec, error
 			}
 		}
 		obs["found"] = n
+	case "Break":
+		// edits of Hello / Extensions that leave something the marshaller has to refuse
+		obs["nbefore"] = len(u.Extensions)
+		switch o.What {
+		case "pad2":
+			u.Extensions = append(append([]tls.TLSExtension{}, u.Extensions...),
+				&tls.UtlsPaddingExtension{PaddingLen: 16, WillPad: true}, &tls.UtlsPaddingExtension{PaddingLen: 8, WillPad: true})
+		case "extfail":
+			u.Extensions = append([]tls.TLSExtension{failingExt{&tls.GenericExtension{Id: 65100, Data: []byte{1}}}}, u.Extensions...)
+		case "badbinder":
+			u.Extensions = append(append([]tls.TLSExtension{}, u.Extensions...), &tls.FakePreSharedKeyExtension{
+				Identities: []tls.PskIdentity{{Label: []byte("verif"), ObfuscatedTicketAge: 1}}, Binders: [][]byte{{1, 2, 3}}})
+		case "emptypsk":
+			u.Extensions = append(append([]tls.TLSExtension{}, u.Extensions...), &tls.UtlsPreSharedKeyExtension{})
+		case "shortrandom":
+			u.HandshakeState.Hello.Random = make([]byte, 16)
+		default:
+			return obs, fmt.Errorf("harness: unknown Break %q", o.What)
+		}
 	case "RemoveSNI":
 		err = u.RemoveSNIExtension()
 	case "EditSuites":
@@ -316,7 +345,7 @@ func runScn(s scn, rawScn json.RawMessage, pk *hlib.PKI, certs []tls.Certificate
 		emit(map[string]any{"ev": "Error", "err": err.Error()})
 		return
 	}
-	ccfg := &tls.Config{ServerName: "example.com", RootCAs: pk.Pool, OmitEmptyPsk: true, InsecureSkipVerify: s.SkipVerify}
+	ccfg := &tls.Config{ServerName: "example.com", RootCAs: pk.Pool, OmitEmptyPsk: !s.StrictPsk, InsecureSkipVerify: s.SkipVerify}
 	scfg := &tls.Config{Certificates: certs, MinVersion: tls.VersionTLS10, MaxVersion: tls.VersionTLS13}
 	group := 0
 	if s.Server == "hrr" || s.Server == "hrrcookie" {
@@ -409,6 +438,9 @@ func runScn(s scn, rawScn json.RawMessage, pk *hlib.PKI, certs []tls.Certificate
 		},
 		Prep: func(u *tls.UConn) error {
 			uref = u
+			nev := map[string]any{"ev": "New"}
+			helloView(u, nev)
+			emit(nev)
 			for i := range s.Ops {
 				o := &s.Ops[i]
 				var obs map[string]any
@@ -446,7 +478,7 @@ func runScn(s scn, rawScn json.RawMessage, pk *hlib.PKI, certs []tls.Certificate
 }
 
 // build: {"scenarios":[scn...], "full": bool} -> per scenario, chronologically: Scn (echo of the scenario + chosen HRR group),
-// Call i (each public call: error, Hello.Raw and the hello fields after it), Rebuilt (hook H1), AtSend (Hello.Raw at
+// New (the UConn as UClient returns it), Call i (each public call: error, Hello.Raw and the hello fields after it), Rebuilt (hook H1), AtSend (Hello.Raw at
 // the moment a ClientHello message is handed to the record layer), Rec k (client handshake records as written),
 // SH (server hellos as sent), Done (errors, Hello.Raw after Handshake).
 func init() {
